@@ -226,3 +226,55 @@ def run(rep, programs):
     from props import c04, c15
     c04.r_balance(rep, prog)
     c15.r_reserve_before_lower(rep, prog)
+
+
+def r_set_start_same_tree(rep, prog):
+    """get_local moves the search hint of its slot after a successful allocation. Between the slot's CAS and this update another
+    caller may have replaced the reservation: the hint may only be written into a reservation of the *same tree*, or the slot
+    claims a tree it does not hold (and the one it holds is orphaned) - the next drain panics in `Unreserve failed`."""
+    rule = "R-SET-START-SAME-TREE"
+    rep.rule(rule, "LocalTree::set_start yields Some(self.with_row(row)) only if the slot is present and holds a reservation of row's tree")
+    fn = "llfree::local::LocalTree::set_start"
+    b = prog.body(fn)
+    if b is None:
+        rep.check(True, rule, "set_start|same-tree", "undecided: no LocalTree::set_start")
+        rep.note("%s: LocalTree::set_start not found; the hint update is undecided" % rule)
+        return
+    rep.saw(fn)
+    tm = T.Terms(b, prog)
+    n = 0
+    for bi, si, rv in lib.assignments_to_return(b):
+        if si == "term" or not (rv["k"] == "aggregate" and rv["kind"].get("variant") == "Some"):
+            continue
+        n += 1
+        span = b.blocks[bi]["stmts"][si]["span"]
+        val = T.canon(tm.operand(rv["ops"][0]))
+        rep.check(val[0] == "call" and val[1].endswith("LocalTree::with_row") and val[2] == (("p", "self"), ("p", "row")), rule,
+                  "set_start|value", "the update only replaces the row", "set_start installs %s" % str(val)[:120], span)
+        same = present = False
+        for s, d in lib.controlling_edges(b, bi):
+            c = T.canon(tm.operand(b.term(s)["discr"]))
+            pol = lib.bool_edge_polarity(b, s, d)
+            if c[0] == "call" and c[1].endswith("LocalTree::present") and pol is True:
+                present = True
+            trees = [x for x in T.walk(c) if x[0] == "call" and x[1].endswith("RowId::as_tree")]
+            args = {x[2][0] for x in trees}
+            own = ("call", "llfree::local::LocalTree::row", (("p", "self"),))
+            is_eq = (c[0] == "call" and c[1].endswith("PartialEq>::eq")) or (c[0] == "bin" and c[1] == "Eq")
+            is_ne = (c[0] == "call" and c[1].endswith("PartialEq::ne")) or (c[0] == "bin" and c[1] == "Ne")
+            if own in args and ("p", "row") in args and ((is_eq and pol is True) or (is_ne and pol is False)):
+                same = True
+        rep.check(present, rule, "set_start|present", "only a present reservation is updated",
+                  "set_start updates a slot without testing that it holds a reservation", span)
+        rep.check(same, rule, "set_start|same-tree", "only if self.row().as_tree() == row.as_tree()",
+                  "set_start writes the new row into the slot although the slot may hold a reservation of another tree "
+                  "(replaced by another caller since this caller's allocation): the slot then claims a tree it does not hold", span)
+    rep.floor(rule, "Some results of set_start", n, 1)
+
+
+_run_c03h = run
+
+
+def run(rep, programs):  # noqa: F811
+    _run_c03h(rep, programs)
+    r_set_start_same_tree(rep, programs["core"])
